@@ -127,6 +127,18 @@ def step (st : St) : List String → St × String
         let x := st.x.connectBlock [] h txs
         ({ st with x := x, xblocks := (h, txs) :: st.xblocks }, s!"ok len={x.cache.txns.length}")
       | _, _ => (st, "bad-op")
+  | ["x.bulk", height, frm, count] =>   -- one block of `count` output-less transactions
+      match nat? height, nat? frm, nat? count with
+      | some h, some f, some c =>
+        let txs := (List.range c).map fun k => (⟨f + k, 0, true, false, []⟩ : BTx)
+        let x := st.x.connectBlock [] h txs
+        ({ st with x := x, xblocks := (h, txs) :: st.xblocks }, s!"ok len={x.cache.txns.length}")
+      | _, _, _ => (st, "bad-op")
+  | ["x.fetchv", id] => match nat? id with   -- after a real trim: only the answer, not hit/miss
+      | some id => (st, match st.x.txdb.lookup id with
+          | some (h, _) => s!"ok {h}"
+          | none => "err notfound")
+      | none => (st, "bad-op")
   | ["x.disconnect", height] => match nat? height >>= fun h => st.xblocks.lookup h with
       | some txs =>
         let x := st.x.disconnectBlock txs
